@@ -116,6 +116,9 @@ def run(tier, seed, replay):
     try:
         binary = build_driver()
         if replay:
+            import e2e
+            if e2e.is_replay(os.path.abspath(replay)):
+                return e2e.do_replay(work, replay, seed, "C07")
             # a replay file is a recorded trace: it is re-validated, and the stress is repeated
             v = judge(work, os.path.abspath(replay), "_replay")
             print("recorded trace: %d events, %d rejected" % (v["lines"], len(v["bad"])))
@@ -248,6 +251,10 @@ def run(tier, seed, replay):
             "immutability check and the race detector, not by schedule enumeration",
             "the Go race detector is used as an additional observer of the lock discipline the specification states",
         ]
+        # composition part (spec/Heimdall*.tla): real provider goroutines + processor + repository +
+        # requests in one assembled service; E1 / E2 / E4 are reported here, E3 by C18
+        import e2e
+        e2e.run_into(verdict, work, tier, seed, "C07")
         return verdict.finish()
     finally:
         work.close()
